@@ -11,17 +11,17 @@ var errScripted = errors.New("scripted transport failure")
 // scriptRWC is a scripted transport: reads are served from a byte script in chosen chunk
 // sizes and end with EOF, an error, or by blocking until Close; writes are recorded.
 type scriptRWC struct {
-	mu      sync.Mutex
-	in      []byte
-	pos     int
-	chunks  []int // read sizes, cycled; nil = as much as asked
-	ci      int
-	term    string // "eof" | "err" | "block"
-	closed  bool
-	closeCh chan struct{}
-	wrote   []byte
-	writes  [][]byte
-	onWrite func(p []byte) // optional hook (called without the lock)
+	mu            sync.Mutex
+	in            []byte
+	pos           int
+	chunks        []int // read sizes, cycled; nil = as much as asked
+	ci            int
+	term          string // "eof" | "err" | "block"
+	closed        bool
+	closeCh       chan struct{}
+	wrote         []byte
+	writes        [][]byte
+	onWrite       func(p []byte) // optional hook (called without the lock)
 	readsAfterEnd int
 }
 
